@@ -456,16 +456,32 @@ fn apply_filter_with_static_argument_value<'query, Vertex: Debug + Clone + 'quer
             apply_filter_op_with_static_argument(right_value, not!(has_substring), iterator)
         }
         Operation::RegexMatches(_, _) => {
-            let pattern =
-                Regex::new(right_value.as_str().expect("regex argument was not a string"))
-                    .expect("regex argument was not a valid regex");
-            apply_filter_op_with_static_argument(pattern, regex_matches_optimized, iterator)
+            match Regex::new(right_value.as_str().expect("regex argument was not a string")) {
+                Ok(pattern) => {
+                    apply_filter_op_with_static_argument(pattern, regex_matches_optimized, iterator)
+                }
+                // An invalid regex never matches, same as in the slow path used for tag arguments.
+                Err(_) => apply_filter_op_with_static_argument(
+                    right_value,
+                    regex_matches_slow_path,
+                    iterator,
+                ),
+            }
         }
         Operation::NotRegexMatches(_, _) => {
-            let pattern =
-                Regex::new(right_value.as_str().expect("regex argument was not a string"))
-                    .expect("regex argument was not a valid regex");
-            apply_filter_op_with_static_argument(pattern, not!(regex_matches_optimized), iterator)
+            match Regex::new(right_value.as_str().expect("regex argument was not a string")) {
+                Ok(pattern) => apply_filter_op_with_static_argument(
+                    pattern,
+                    not!(regex_matches_optimized),
+                    iterator,
+                ),
+                // An invalid regex never matches, same as in the slow path used for tag arguments.
+                Err(_) => apply_filter_op_with_static_argument(
+                    right_value,
+                    not!(regex_matches_slow_path),
+                    iterator,
+                ),
+            }
         }
 
         Operation::IsNull(_) | Operation::IsNotNull(_) => unreachable!("{filter:?}"),
